@@ -24,6 +24,7 @@ META = {
         "call of five fixed programs (backend latency 0/0.2 s). Non-trivial = execution with >=1 crash or >=3 "
         "invocations; distinct = (program shape, invocation outcomes, crash plan)."
         " Plus LinePreempt sweeps over state.py for four fixed programs (paged and unpaged responses)."
+        " Directed stage: a context recorded with ReplayChildren whose body raises (invocation-level, SDK and user errors) when it is run again in a later invocation - no FAIL for the completed context."
     ),
     "assumptions": ["the automaton in vf/simbackend.py is the trusted statement of the lifecycle the backend expects",
                     "updates are applied leniently after a violation is recorded (so one defect does not cascade)"],
